@@ -17,13 +17,38 @@ type vTailComp struct{ w io.Writer }
 func (c *vTailComp) Write(p []byte) (int, error) { return c.w.Write(p) }
 func (c *vTailComp) Flush() error                { _, err := c.w.Write(vTail); return err }
 
+// vBufComp: a compressor WITHOUT the optional Reset method that keeps what it is given until Flush
+// (as every real compressor does): state inside the compressor must not survive Writer.Reset.
+type vBufComp struct {
+	w    io.Writer
+	pend []byte
+}
+
+func (c *vBufComp) Write(p []byte) (int, error) { c.pend = append(c.pend, p...); return len(p), nil }
+func (c *vBufComp) Flush() error {
+	out := append(c.pend, vTail...)
+	c.pend = nil
+	_, err := c.w.Write(out)
+	return err
+}
+
 // C18_flate_resets: after Reset the compression writer and reader behave as new, whatever
 // happened before (tail error, DESTINATION error, data held back, suffix partly consumed).
 func C18_flate_resets() {
 	if vChoose("which", 2) == 0 {
 		bad := &vFailW{}
 		var w *Writer
-		switch vChoose("history", 3) {
+		switch vChoose("history", 4) {
+		case 3: // data still inside a compressor that has no Reset method
+			w = NewWriter(&vRecW{}, func(x io.Writer) Compressor { return &vBufComp{w: x} })
+			w.Write(vBytes("old", 5))
+			dst := &vRecW{}
+			w.Reset(dst)
+			p := vBytes("p", 7)
+			w.Write(p)
+			vAssert(w.Flush() == nil, "flate.writer_flush_after_reset")
+			vAssert(vEqBytes(dst.all, p), "flate.writer_unflushed_compressor_data_dropped_by_reset")
+			return
 		case 0: // a destination that fails
 			w = NewWriter(bad, func(x io.Writer) Compressor { return &vTailComp{w: x} })
 			w.Write(vBytes("old", 6))
